@@ -42,7 +42,7 @@ pub(super) fn finalize_typed_function(
         parent.next_call_site_slot = nested_compiler.next_call_site_slot;
     }
 
-    let const_idx = parent.current.add_constant_function(compiled_func);
+    let const_idx = parent.add_function_constant(compiled_func, !nested_upvalues.is_empty(), func.span)?;
 
     if nested_upvalues.is_empty() {
         parent.emit_b(OpCode::LoadK, func_var_reg, const_idx as i16, func.span);
